@@ -110,8 +110,11 @@ class C01(Check):
             cfg["script_per"] = 1
         rl = cfg["scheduler"]["kind"] == "rl"
         perts = [gen_perturbation(rng, rl) for _ in range(rng.randint(1, 3))]
-        return {"engine": "calsim", "config": cfg, "env": {}, "ops": [["calibrate", n]], "perturbations": perts,
-                "sim_seed": rng.randrange(2 ** 31)}
+        scn = {"engine": "calsim", "config": cfg, "env": {}, "ops": [["calibrate", n]], "perturbations": perts,
+               "sim_seed": rng.randrange(2 ** 31)}
+        if rng.random() < (0.05 if tier == "quick" else 0.02):
+            scn["hashseed"] = str(rng.randrange(1, 2 ** 32))      # twin in a fresh interpreter with another PYTHONHASHSEED
+        return scn
 
     def run(self, scn):
         res = Result()
@@ -127,10 +130,30 @@ class C01(Check):
                 if k != "salt":
                     res.stats[f"perturb:{k}"] += 1
             res.stats.update(other.stats)
-            compare(base, other, label, res)
+            probe = Result()
+            compare(base, other, label, probe)
+            if probe.violations and len([k for k in env if k != "salt"]) > 1:
+                # attribute the difference to a single perturbation where possible (keeps signatures stable under shrinking)
+                attributed = False
+                for k in sorted(env):
+                    if k == "salt":
+                        continue
+                    single = {k: env[k]}
+                    if k == "n_jobs" and "salt" in env:
+                        single["salt"] = env["salt"]
+                    one = calsim.CalSim(scn, env=single, label=k).run()
+                    before = len(res.violations)
+                    compare(base, one, k, res)
+                    attributed = attributed or len(res.violations) > before
+                if not attributed:
+                    compare(base, other, "combination", res)
+            else:
+                compare(base, other, label, res)
             digests.append(other.digest())
             if done >= 2:
                 res.extra_keys.append(jdigest([scn["config"], label]))
+        if scn.get("hashseed"):
+            self.hashseed_twin(scn, digests[0], res)
         if base.op_results and base.op_results[0]["exc"]:
             res.stats["baseline-raised"] += 1
         if base.op_results and base.op_results[0]["snap"]["batch_index"] < scn["ops"][0][1] and not base.op_results[0]["exc"]:
@@ -142,7 +165,34 @@ class C01(Check):
                       "baseline_rows": base.op_results[0]["snap"]["n"] if base.op_results else None}
         return res
 
+    def hashseed_twin(self, scn, base_digest, res):
+        import json
+        import os
+        import tempfile
+        from pathlib import Path
+
+        from sim.core import run_in_fresh_interpreter
+        twin = {k: v for k, v in scn.items() if k not in ("hashseed", "perturbations", "expect")}
+        twin["perturbations"] = []
+        fd, path = tempfile.mkstemp(prefix="verif-c01-hs-", suffix=".json")
+        os.close(fd)
+        try:
+            Path(path).write_text(json.dumps(twin))
+            rc, last, txt = run_in_fresh_interpreter("C01", Path(path), hashseed=scn["hashseed"], timeout=240)
+        finally:
+            os.unlink(path)
+        res.stats["perturb:hashseed(fresh interpreter)"] += 1
+        if last is None:
+            raise RuntimeError("hash-seed twin produced no result: " + txt[-500:])
+        if last["digest"] != jdigest([base_digest]):
+            res.add("history-differs", "hashseed", f"the same configuration executed in a fresh interpreter with PYTHONHASHSEED={scn['hashseed']} "
+                                                   f"produced a different event log (digest {last['digest']} vs {jdigest([base_digest])})")
+
     def shrink(self, scn):
+        if scn.get("hashseed") and scn["perturbations"]:
+            c = copy.deepcopy(scn)
+            c["perturbations"] = []
+            yield c
         if len(scn["perturbations"]) > 1:
             for i in range(len(scn["perturbations"])):
                 c = copy.deepcopy(scn)
